@@ -169,11 +169,16 @@ pub fn glob(pattern: &str, text: &str) -> bool {
 /// different defect and is reported. Only the witness replay accounts for the finding itself.
 pub fn match_open_finding<'a>(fs: &'a [Finding], v: &Violation) -> Option<&'a Finding> {
     let steer = active_steering();
+    // Only a finding whose witness was replayed by the parent and still fails suppresses its
+    // classes; one whose witness holds now is treated as gone, so the violation is reported if it
+    // ever returns (`VERIF_ACTIVE_FINDINGS` unset = stand-alone worker: every open finding counts).
+    let active: Option<Vec<String>> = std::env::var("VERIF_ACTIVE_FINDINGS").ok().map(|s| s.split('\u{1f}').map(String::from).collect());
     fs.iter().find(|f| {
         f.status == "open"
             && f.property == v.property
             && f.covers(&v.class)
             && !f.steer.as_ref().is_some_and(|t| steer.contains(t))
+            && active.as_ref().is_none_or(|a| a.contains(&f.key()))
     })
 }
 
@@ -494,7 +499,7 @@ pub fn run_check(check: &dyn Check, tier: Tier) -> i32 {
                 steer.push(t.clone());
             }
         } else {
-            println!("note: witness of known finding '{}' no longer fails; its steering rule is lifted for this run", f.key());
+            println!("note: witness of known finding '{}' no longer fails; its steering rule is lifted and its classes suppress nothing in this run", f.key());
         }
     }
     let mut children = Vec::new();
@@ -504,6 +509,7 @@ pub fn run_check(check: &dyn Check, tier: Tier) -> i32 {
             .args(["worker", check.id(), tier.name(), &w.to_string(), &n.to_string(), &seed.to_string()])
             .arg(&res)
             .env("VERIF_STEER", steer.join(","))
+            .env("VERIF_ACTIVE_FINDINGS", still_failing.join("\u{1f}"))
             .stdout(Stdio::inherit())
             .stderr(Stdio::piped())
             .spawn()
